@@ -264,6 +264,18 @@ func (s *Store) Prewrite(req PrewriteReq) (results []Res, applied bool) {
 			}
 		}
 		if m.Op == "check-not-exists" {
+			// no lock is written, but a version newer than start ts (or the txn's own rollback marker) fails the check
+			var classes []string
+			if k.hasMarker(req.Start) {
+				classes = append(classes, AlreadyRolledBk)
+			}
+			if len(k.Writes) > 0 && k.Writes[0].Commit > req.Start {
+				classes = append(classes, WriteConflict)
+			}
+			if len(classes) > 0 {
+				results = append(results, Res{Classes: classes})
+				anyErr = true
+			}
 			continue
 		}
 		r, lock := s.prewriteOne(k, m, req)
